@@ -10,7 +10,7 @@
    pending read, the goroutine census.  Known finding D10: WriteClose waits for Conn.mu behind a writer stalled in the
    transport (the extracted ep_Conn_WriteClose takes LConn before it writes: no bound if the owner never returns). *)
 From Coq Require Import List Bool Arith.
-From Gws Require Import Skel.IR Skel.Checker Skel.Monitors Skel.GlobalClose Skel.Link Skel.Lifecycle Skel.Obligations.
+From Gws Require Import Skel.IR Skel.Checker Skel.Monitors Skel.GlobalClose Skel.Link Skel.Lifecycle Skel.Obligations Skel.OblClose Skel.OblLifecycle Skel.OblLock.
 Import ListNotations.
 
 Theorem C09_teardown_once : forall prog : nat -> stmt,
